@@ -1,5 +1,8 @@
 //! Reference implementations written for this harness, independent of rPGP's own code.
+pub mod crypto;
 pub mod gen;
+pub mod keys;
+pub mod pkesk;
 pub mod sigdigest;
 pub mod text;
 pub mod wire;
